@@ -19,10 +19,32 @@ def entry(name, seeded=False, deterministic=False, groups=("c15",), cb=False):
     """seeded: accepts random_state (C16 O1/O2); deterministic: no random choices (C16 O3)."""
 
     def deco(f):
-        ENTRIES[name] = dict(name=name, build=f, seeded=seeded, deterministic=deterministic, groups=groups, cb=cb)
+        ENTRIES[name] = dict(name=name, build=_with_common_options(f), seeded=seeded, deterministic=deterministic, groups=groups, cb=cb)
         return f
 
     return deco
+
+
+def _with_common_options(f):
+    """Options every entry point may offer without the entry's builder knowing: `verbose` (reporting paths
+    compute extra quantities - norms, errors - and are a classic place for a stray global-RNG or in-place use).
+    The extra choice is drawn *after* the builder's own choices, so older recorded choice lists replay unchanged."""
+    import inspect
+
+    def build(g):
+        call = f(g)
+        fn, kw = call["fn"], call["kwargs"]
+        try:
+            params = inspect.signature(fn).parameters
+        except (TypeError, ValueError):
+            return call
+        accepts = "verbose" in params or any(q.kind is inspect.Parameter.VAR_KEYWORD and q.name == "opts" for q in params.values())
+        if accepts and "verbose" not in kw:  # `**opts` closures build the estimator classes, which all take `verbose`
+            if g.flag(0.1):
+                kw["verbose"] = g.choice([True, 2])
+        return call
+
+    return build
 
 
 def split_entry(prefix, builder, whiches, **flags):
@@ -30,6 +52,8 @@ def split_entry(prefix, builder, whiches, **flags):
     for w in whiches:
         def build(g, _w=w):
             return builder(g, _w)
+
+        build = _with_common_options(build)
 
         nm = w if prefix is None else f"{prefix}:{w}"
         ENTRIES[nm] = dict(name=nm, build=build, seeded=flags.get("seeded", False), deterministic=flags.get("deterministic", False),
